@@ -30,6 +30,37 @@ def handleC04 (args : List String) : String :=
         | _, _ => "bad-op"
       | _, _ => "bad-op"
     | _, _, _ => "bad-op"
+  | "full" :: d :: m :: adj :: nc :: rest =>
+    -- `c04 full dim modes adjust ncon con.. axis_0..axis_{dim-1} dx vmin vmax wflag cand(dim+2+modes) x..`
+    --   axis_i = "-" (not periodic) or "lo:len" (float bits); wflag = 1 iff the candidate's width is set
+    -- answer: `ok x0 | lb | ub | returned flat record`
+    match d.toNat?, m.toNat?, nc.toNat? with
+    | some d, some m, some nc =>
+      let parseAxis (t : String) : Option (Option (Float × Float)) :=
+        if t == "-" then some none else
+        match t.splitOn ":" with
+        | [a, b] => match parseFloat a, parseFloat b with
+          | some lo, some len => some (some (lo, len))
+          | _, _ => none
+        | _ => none
+      match parseNats (rest.take nc), ((rest.drop nc).take d).mapM parseAxis, (rest.drop (nc + d)) with
+      | some cons, some axes, dxs :: vmins :: vmaxs :: wf :: vals =>
+        match parseFloat dxs, parseFloat vmins, parseFloat vmaxs, parseFloats vals with
+        | some dx, some vmin, some vmax, some vs =>
+          let n := d + 2 + m
+          if vs.length < n then "bad-op" else
+          let rec_ := vs.take n
+          let x := vs.drop n
+          let c : Cand Float := ⟨rec_.take d, rec_.getD d 0, if wf == "1" then some (rec_.getD (d + 1) 0) else none,
+            rec_.drop (d + 2)⟩
+          let L : Layout := ⟨d, m⟩
+          let p := plan (α := Float) L cons (promote dx c) vmin vmax (adj == "1")
+          let res := refineResult L cons axes dx c x (adj == "1")
+          "ok " ++ " ".intercalate (p.x0.map showFloat) ++ " | " ++ " ".intercalate (p.lb.map showOpt) ++ " | " ++
+            " ".intercalate (p.ub.map showOpt) ++ " | " ++ " ".intercalate (res.map showFloat)
+        | _, _, _, _ => "bad-op"
+      | _, _, _ => "bad-op"
+    | _, _, _ => "bad-op"
   | _ => "bad-op"
 
 end DV.Drv
